@@ -88,7 +88,9 @@ func (ex *Exec) dispatch(fr *Frame, st *State, cc *ssa.CallCommon, fnv Value, ar
 	fc := ex.prog.Contracts.Funcs[name]
 	switch {
 	case fc != nil && !fc.Inline:
+		ex.calleeBind = bind
 		res = ex.applyContract(fr, st, fc, fn, cc.Signature(), args, rt, pos)
+		ex.calleeBind = nil
 	case fn != nil && fn.Blocks != nil && ex.isTargetFn(fn) && (bind != nil || fn.Parent() != nil || ex.prog.Pre.Inlinable(fn)) && fr.depth < maxInlineDepth:
 		ex.inlined[name] = true
 		ret, vals := ex.runFunc(fn, args, bind, st, fr.depth+1, false)
@@ -300,6 +302,15 @@ func (ex *Exec) applyContract(fr *Frame, st *State, fc *FuncContract, fn *ssa.Fu
 		ex.usedStubs[fc.Name+" (in-repo function, contract trusted: "+fc.TrustedReason+")"] = true
 	}
 	env := ex.calleeEnv(fc, fn, sig, args)
+	if fn != nil && len(ex.calleeBind) == len(fn.FreeVars) {
+		// a closure under contract: its free variables denote the values
+		// the captured variables have at the call
+		for i, fv := range fn.FreeVars {
+			if _, clash := env[fv.Name()]; !clash {
+				env[fv.Name()] = SV{V: ex.derefBinding(st, ex.calleeBind[i], fv.Type()), T: derefType(fv.Type())}
+			}
+		}
+	}
 	ctx := &EvalCtx{ex: ex, st: st, old: st, env: env, pkg: fc.Pkg, fnPos: fnPos(fn)}
 	if ex.full {
 		for i, r := range fc.Requires {
